@@ -83,11 +83,22 @@ Proof. vm_compute. reflexivity. Qed.
 Theorem snapshot_old_refuted :
   exists l sid t c, let n := state_after cfg_old init l in
     n_status n = Fenced /\ t < n_term n /\ n_wal n <> [] /\
-    n_wal (fst (step cfg_old n (SnapshotInstall sid t c))) = [].
+    n_wal (fst (step cfg_old n (SnapshotInstall sid t c 0))) = [].
 Proof.
   exists sched_o3, 9%nat, 4, 0. cbv zeta.
   assert (Ht : n_term (state_after cfg_old init sched_o3) = 6) by (vm_compute; reflexivity).
   split; [vm_compute; reflexivity|]. split; [rewrite Ht; lia|]. split; [vm_compute; discriminate|vm_compute; reflexivity].
+Qed.
+
+(* ---- open finding on the repaired code: a snapshot install that fails after its first chunk leaves the node without a
+   stored term (the DB directory has been emptied); a restart then forgets the fence: NewTerm of an older term is accepted *)
+Theorem newterm_after_failed_snapshot_refuted :
+  exists l1 l2 t h,
+    n_term (state_after cfg_fixed init l1) = 6 /\ n_status (state_after cfg_fixed init l1) = Fenced /\
+    t < 6 /\ o_res (snd (step cfg_fixed (state_after cfg_fixed init (l1 ++ l2)) (NewTermReq t))) = RHead h.
+Proof.
+  exists [NewTermReq 6], [TruncateReq 6 (-1, -1); SnapshotInstall 1 6 0 2; CrashRestart 0], 2, (-1, -1).
+  split; [vm_compute; reflexivity|]. split; [vm_compute; reflexivity|]. split; [lia|vm_compute; reflexivity].
 Qed.
 
 (* ---- O-26: a leader of an older term attaches to a node that is already in a newer term *)
